@@ -464,7 +464,22 @@ class DeferredSender (threading.Thread):
       with self._lock:
         cons = list(self._dataForConnection.keys())
 
-      rlist, wlist, elist = select.select([self._waker], cons, cons, 5)
+      try:
+        rlist, wlist, elist = select.select([self._waker], cons, cons, 5)
+      except (ValueError, select.error, socket.error):
+        # A connection was closed while it still had data queued.  Forget
+        # the ones we can no longer select on and go around again.
+        gone = []
+        for con in cons:
+          try:
+            if con.fileno() < 0: gone.append(con)
+          except Exception:
+            gone.append(con)
+        if not gone: raise
+        with self._lock:
+          for con in gone:
+            self._dataForConnection.pop(con, None)
+        continue
       if not core.running: break
 
       with self._lock:
